@@ -482,7 +482,9 @@ func falseReturnConds(fn *ssa.Function) (conds []string, ok bool) {
 	return conds, ok
 }
 
-func checkTableKeys(c *core.Ctx) {
+func checkTableKeys(c *core.Ctx) { checkTableKeysAs(c, "R15.4", "R15.7") }
+
+func checkTableKeysAs(c *core.Ctx, r4, r7 string) {
 	for _, fn := range moduleFns(c, "internal/sys") {
 		if fn.Parent() != nil {
 			continue
@@ -534,8 +536,38 @@ func checkTableKeys(c *core.Ctx) {
 					}
 				}
 			}
-			c.Check(upper || calleeBounded, "R15.4", "descriptor number bounded in "+core.SSAFuncName(fn), ins.Pos(), "the guest-chosen descriptor number has an upper bound before it sizes the table",
+			c.Check(upper || calleeBounded, r4, "descriptor number bounded in "+core.SSAFuncName(fn), ins.Pos(), "the guest-chosen descriptor number has an upper bound before it sizes the table",
 				"the descriptor number chosen by the guest (parameter "+p.Name()+") reaches Table.InsertAt with only a lower bound: the table grows to key/64 mask words plus key items (≈16GiB for 2^31-1) for a guest of any size")
+			// R15.7: no other failing return between a Delete and this InsertAt either
+			for _, del := range deletes {
+				if !(del.Block() == ins.Block() || del.Block().Dominates(ins.Block())) {
+					continue
+				}
+				for _, rb := range fn.Blocks {
+					if len(rb.Instrs) == 0 {
+						continue
+					}
+					ret, isRet := rb.Instrs[len(rb.Instrs)-1].(*ssa.Return)
+					if !isRet || len(ret.Results) != 1 {
+						continue
+					}
+					k, isK := ret.Results[0].(*ssa.Const)
+					if !isK || k.Value == nil || k.Int64() == 0 {
+						continue
+					}
+					// reachable after the delete and not after the insert
+					afterDel := rb == del.Block() || del.Block().Dominates(rb)
+					afterIns := rb == ins.Block() || ins.Block().Dominates(rb)
+					if !afterDel || afterIns {
+						continue
+					}
+					if rb == del.Block() {
+						continue // same block: the return is the block's end, after the delete – but then InsertAt is not dominated; ignore
+					}
+					c.Violate(r7, "no failing return between removal and re-insertion in "+core.SSAFuncName(fn), ret.Pos(),
+						"an entry is removed from the descriptor table at "+c.Pos(del.Pos())+" and the function can then return errno "+k.Value.String()+" at "+c.Pos(ret.Pos())+" before the entry is inserted again: the call reports an error, yet the source descriptor is gone and its file is never closed")
+				}
+			}
 			// R15.7: a Delete before this InsertAt and a failing return after it
 			for _, del := range deletes {
 				if !(del.Block() == ins.Block() || del.Block().Dominates(ins.Block())) {
@@ -591,7 +623,7 @@ func checkTableKeys(c *core.Ctx) {
 						}
 					}
 				}
-				c.Check(feasible == "", "R15.7", "no failure after removal in "+core.SSAFuncName(fn), ins.Pos(), "every failure condition of InsertAt is excluded before the entry is deleted",
+				c.Check(feasible == "", r7, "no failure after removal in "+core.SSAFuncName(fn), ins.Pos(), "every failure condition of InsertAt is excluded before the entry is deleted",
 					"an entry is removed from the descriptor table at "+c.Pos(del.Pos())+" and the re-insertion can then fail ("+feasible+"): the open file is lost to the guest (descriptor table corrupted)")
 			}
 		}
